@@ -121,7 +121,7 @@ CHECKS["C18"] = {
     "runs": [{
         "harness": "c18_parse", "sources": ["engines/cmdmc/c18_parse.cpp"], "deps": _FIX,
         "variant": "plain", "libset": "full",
-        "quick": {"parts": 16, "deadline": 80, "bounds": "a: <=3 args x <=2 chars, <=2 args x <=3 chars; b: <=4 segments, raw <=6; c: 3 identifiers; d: LF/CRLF x {whole, CR|LF cuts} on all of a,b + all <=3-piece cuts on the sub-universe + lengths 200..800 in 255 byte pieces"},
+        "quick": {"parts": 16, "deadline": 240, "bounds": "a: <=3 args x <=2 chars, <=2 args x <=3 chars; b: <=4 segments, raw <=6; c: 3 identifiers; d: LF/CRLF x {whole, CR|LF cuts} on all of a,b + all <=3-piece cuts on the sub-universe + lengths 200..800 in 255 byte pieces"},
         "thorough": {"parts": 16, "deadline": 800, "bounds": "a: <=3 args x <=3 chars; b: <=5 segments, raw <=7; c: 5 identifiers; d: as quick on the thorough universes, sub-universe <=3 args / <=2 segments"},
     }, {
         "harness": "mqtt_real", "sources": ["engines/cmdmc/mqtt_real.cpp"], "deps": _FIX,
